@@ -108,13 +108,13 @@ Lemma log_group_hdr_nonempty ti g b b' :
 Proof.
   unfold log_group. intros Hne H. apply bind_ok in H. destruct H as [b1 [Hh Hb]]. inversion Hb; subst b'. clear Hb.
   simpl in Hh. apply set_hashes_spec in Hh. destruct Hh as [h [-> [H1 _]]]. unfold hdr. simpl.
-  Show. destruct H1 as [H1|H1]; [contradiction | rewrite H1; reflexivity].
+  destruct H1 as [H1|H1]; congruence.
 Qed.
 
 Lemma on_block_hdr_safe s n f :
   (forall b b', b_hash b <> [] -> f b = Ok b' -> hdr b' = hdr b) -> hdr_safe s (on_block n f).
 Proof.
-  intros Hf bs bs' Hn Hk H. eapply on_block_proj; eauto. intros b b' Hin Hb. apply Hf; auto.
+  intros Hf bs bs' Hn Hk H. eapply on_block_proj; [|exact H]. intros b b' Hin Hb. apply Hf; auto.
 Qed.
 
 Lemma receipts_elem_hdr_safe s l i e : hdr_safe s (receipts_elem repaired s l i e).
@@ -171,14 +171,14 @@ Proof.
     - unfold receipts_p in E. destruct (w_receipts w) as [|es]; [inversion E; reflexivity|].
       destruct (existsb re_err es); [inversion E; reflexivity|].
       destruct (length es <? N.to_nat l)%nat; [inversion E; reflexivity|].
-      eapply run_steps_hdr; eauto. apply rsteps_safe.
+      eapply (run_steps_hdr s _ (rsteps_safe s l _ _)); eauto.
     - unfold logs_p in E. destruct (w_logs w) as [|lb]; [inversion E; reflexivity|].
       destruct (lb_len lb <? 2)%nat; [inversion E; reflexivity|].
       destruct (lb_herr lb); [inversion E; reflexivity|]. destruct (lb_lerr lb); [inversion E; reflexivity|].
       destruct (lb_hdr lb); [|inversion E; reflexivity]. destruct (lb_logs lb); [|inversion E; reflexivity].
       destruct (hdr_skew _ _ _); [inversion E; reflexivity|].
       destruct (logs_scan repaired s l l0); try (inversion E; reflexivity).
-      eapply run_steps_hdr; eauto. apply gsteps_safe.
+      eapply (run_steps_hdr s _ (gsteps_safe s _)); eauto.
     - inversion E; reflexivity. }
   destruct (if use_receipts p then _ else _) as [bs1 ok1] eqn:E1.
   pose proof (S1 _ _ eq_refl) as H1.
@@ -430,3 +430,18 @@ Lemma ccrun_validated mx ops cl outs :
           (combine ops (worlds_upto [] ops)) outs.
 Proof. apply ccrun_validated_gen. apply cc_inv_init. Qed.
 
+
+(* a reply to the blocks / headers batch that blocks()/headers() reject gives
+   the cache nothing to store, whatever blocks come back with the error *)
+Lemma getter_rejected s l r :
+  (forall bs, fetch_blocks repaired s l r <> Ok bs) -> fetch_value (getter_outcome s l r) = None.
+Proof.
+  intros H. unfold getter_outcome. destruct (fetch_blocks repaired s l r) as [bs| |]; auto.
+  exfalso. apply (H bs). reflexivity.
+Qed.
+
+Lemma getter_accepted s l r bs :
+  fetch_value (getter_outcome s l r) = Some bs -> fetch_blocks repaired s l r = Ok bs.
+Proof.
+  unfold getter_outcome. destruct (fetch_blocks repaired s l r) as [bs0| |]; simpl; intros H; inversion H; auto.
+Qed.
